@@ -81,10 +81,17 @@ Definition gobs_eqb (a b : gobs) : bool :=
   | _, _ => false
   end.
 
+Definition outcome_obs (r : new_result) : nat * option (Z * Z) :=
+  match r with
+  | NewErr => (0%nat, None)
+  | NewPanic => (1%nat, None)
+  | NewOk l => (2%nat, Some (l_limit l, l_spike l))
+  end.
+
 (* ---- cases ----------------------------------------------------------------------------------- *)
 Inductive vcase :=
-(* Validate() class; NewMemoryLimiter attempted? ; its usage checker (limit, spike), None = error *)
-| CConfig (c : config) (total : option Z) (verr : nat) (attempted : bool) (chk : option (Z * Z))
+(* Validate() class; NewMemoryLimiter outcome: 0 = error, 1 = panic, 2 = limiter with usage checker (limit, spike) *)
+| CConfig (c : config) (total : option Z) (verr : nat) (outcome : nat) (chk : option (Z * Z))
 (* a limiter built from (c, total), clock 0 at construction, then checks *)
 | CRun (c : config) (total : option Z) (ticks : list (Z * Z * Z)) (obs : list chk_obs)
 (* Start (true) / Shutdown (false) script on one limiter *)
@@ -94,10 +101,10 @@ Inductive vcase :=
 
 Definition check_case (c : vcase) : bool :=
   match c with
-  | CConfig cfg total verr attempted chk =>
+  | CConfig cfg total verr outcome chk =>
       Nat.eqb (verr_code (validate cfg)) verr &&
-      (negb attempted ||
-       option_eqb pairZ_eqb (option_map (fun l => (l_limit l, l_spike l)) (new_limiter cfg total)) chk)
+      Nat.eqb (fst (outcome_obs (new_outcome cfg total))) outcome &&
+      option_eqb pairZ_eqb (snd (outcome_obs (new_outcome cfg total))) chk
   | CRun cfg total ticks obs =>
       match new_limiter cfg total with
       | Some l => list_eqb chk_obs_eqb (run_obs l (st0 0) ticks) obs
@@ -113,7 +120,7 @@ Definition check_case (c : vcase) : bool :=
 
 (* model outputs, for replay files *)
 Inductive mout :=
-| MConfig (verr : nat) (chk : option (Z * Z))
+| MConfig (verr : nat) (outcome : nat * option (Z * Z))
 | MRun (obs : option (list chk_obs))
 | MLife (obs : list life_obs)
 | MGate (obs : option (list gobs)).
@@ -121,7 +128,7 @@ Inductive mout :=
 Definition model_out (c : vcase) : mout :=
   match c with
   | CConfig cfg total _ _ _ =>
-      MConfig (verr_code (validate cfg)) (option_map (fun l => (l_limit l, l_spike l)) (new_limiter cfg total))
+      MConfig (verr_code (validate cfg)) (outcome_obs (new_outcome cfg total))
   | CRun cfg total ticks _ => MRun (option_map (fun l => run_obs l (st0 0) ticks) (new_limiter cfg total))
   | CLife ops _ => MLife (life_obs_run life0 ops)
   | CGate cfg total ops _ => MGate (option_map (fun l => snd (gate_run l (st0 0) ops)) (new_limiter cfg total))
